@@ -116,6 +116,9 @@ pub struct Program {
     /// (name tokens, value tokens): the name is passed to the real code as the concatenated spellings
     api: Vec<(Vec<Tok>, Vec<Tok>)>,
     files: Vec<File>,
+    /// request `C12.hof`: a program of the higher-order family, on which RSSL is expected to equal C exactly; any
+    /// difference fails with a key of its own, whether or not a known deviation would reproduce it
+    strict: bool,
 }
 
 fn enc_line(l: &Line) -> String {
@@ -163,7 +166,7 @@ impl Program {
                 .collect::<Vec<_>>()
                 .join("|")
         };
-        let mut f = vec!["C12.run".to_string(), api];
+        let mut f = vec![if self.strict { "C12.hof".to_string() } else { "C12.run".to_string() }, api];
         for file in &self.files {
             let mut parts = vec![if file.real == file.name {
                 file.name.clone()
@@ -178,9 +181,10 @@ impl Program {
 
     fn decode(req: &str) -> Option<Program> {
         let f: Vec<&str> = req.split('\t').collect();
-        if f.len() < 3 || (f[0] != "C12.run" && f[0] != "C12.limit") {
+        if f.len() < 3 || (f[0] != "C12.run" && f[0] != "C12.limit" && f[0] != "C12.hof") {
             return None;
         }
+        let strict = f[0] == "C12.hof";
         let mut api = Vec::new();
         if f[1] != "-" {
             for e in f[1].split('|') {
@@ -214,7 +218,7 @@ impl Program {
                 lines,
             });
         }
-        Some(Program { api, files })
+        Some(Program { api, files, strict })
     }
 
     fn render_file(file: &File) -> String {
@@ -1713,9 +1717,284 @@ fn generate(rng: &mut Rng, hist: &mut Hist) -> Vec<Program> {
         lines.extend(fs[0].lines.clone());
         fs[0].lines = lines;
         g.hist.add(&format!("api-defines:{}", api.len()));
-        variants.push(Program { api, files: fs });
+        variants.push(Program { api, files: fs, strict: false });
     }
     variants
+}
+
+// ------------------------------------------------------------------------------------------------
+// generator family: higher-order use of macros
+// ------------------------------------------------------------------------------------------------
+//
+// The name of a function-like macro ("worker": `W1`..`W3`) is passed as an argument to a macro ("combinator": `H1`, `H2`,
+// relay `M1`) whose replacement list invokes it: `#define APPLY(f, x) f(x)` / `APPLY(NEG, a)`, the X-macro idiom
+// `#define LIST(X) X(1) X(2)` / `LIST(DECL)`, `#define CALL(f, args) f args` / `CALL(ADD, (p, q))`, a relay
+// `#define MAP(f, x) APPLY(f, x)`.  Replacement lists of combinators consist of parameters, literals and punctuation --
+// with and without an identifier of their own.  Workers expand to text that names no macro, so no known deviation
+// applies: the programs are judged strictly (request `C12.hof`).
+
+fn generate_higher_order(rng: &mut Rng, hist: &mut Hist) -> Program {
+    fn id(s: &str) -> Tok {
+        Tok::Id(s.to_string())
+    }
+    fn int(n: u64) -> Tok {
+        Tok::Int(n.to_string())
+    }
+    fn punct(s: &str) -> Tok {
+        Tok::P(s.to_string())
+    }
+    let mut lines: Vec<Line> = Vec::new();
+    // workers
+    let nw = 1 + rng.below(3) as usize;
+    let mut arity: Vec<usize> = Vec::new();
+    for w in 0..nw {
+        let ar = if rng.chance(1, 8) { 0 } else { 1 + rng.below(2) as usize };
+        arity.push(ar);
+        let mut t = vec![Tok::Ws, id(&format!("W{}", w + 1)), Tok::LParen];
+        for i in 0..ar {
+            if i > 0 {
+                t.push(Tok::Comma);
+                t.push(Tok::Ws);
+            }
+            t.push(id(PARAM_NAMES[i]));
+        }
+        t.push(Tok::RParen);
+        t.push(Tok::Ws);
+        let x = id(PARAM_NAMES[0]);
+        let y = id(PARAM_NAMES[1]);
+        let body: Vec<Tok> = match (ar, rng.below(5)) {
+            (0, _) => vec![int(7 + w as u64)],
+            (1, 0) => vec![Tok::LParen, punct("-"), Tok::LParen, x, Tok::RParen, Tok::RParen],
+            (1, 1) => vec![id("P"), Tok::Ws, x.clone(), Tok::Ws, punct(";")],
+            (1, 2) => vec![id("Q"), Tok::Ws, Tok::HashHash, Tok::Ws, x, Tok::Ws, punct(";")],
+            (1, 3) => vec![x.clone(), Tok::Ws, punct("*"), Tok::Ws, x],
+            (1, _) => vec![punct("{"), Tok::Ws, x, Tok::Ws, punct("}")],
+            (_, 0) => vec![x, Tok::Ws, punct("+"), Tok::Ws, y],
+            (_, 1) => vec![Tok::LParen, x, Tok::Comma, Tok::Ws, y, Tok::RParen],
+            (_, 2) => vec![id("R"), Tok::Ws, y, Tok::Ws, x],
+            (_, 3) => vec![x, Tok::Ws, punct("="), Tok::Ws, y, punct(";")],
+            (_, _) => vec![y, Tok::Ws, punct("-"), Tok::Ws, int(1), Tok::Ws, x],
+        };
+        t.extend(body);
+        lines.push(Line::Define(t));
+    }
+    // combinators: the first parameter is the function
+    // shape 0: F(V..)   1: F(1) F(2) (unary workers)   2: F V (V receives a parenthesised list)   3: F(F(V)) (unary)
+    // shape 4: relay to another combinator
+    let nh = 1 + rng.below(2) as usize;
+    let mut shapes: Vec<(u64, usize)> = Vec::new(); // (shape, arity of the workers it takes)
+    for h in 0..nh {
+        // the arity it calls its function with is the arity of one of the workers
+        let k = arity[rng.below(nw as u64) as usize];
+        let has_unary = arity.iter().any(|a| *a == 1);
+        let shape = if h > 0 && rng.chance(1, 3) { 4 } else { rng.below(4) };
+        let shape = if matches!(shape, 1 | 3) && !has_unary { 0 } else { shape };
+        let k = match shape {
+            1 | 3 => 1,
+            4 => shapes[0].1,
+            _ => k,
+        };
+        let nvals = match shape {
+            1 => 0,
+            2 => 1,
+            3 => 1,
+            4 => match shapes[0].0 {
+                1 => 0,
+                2 | 3 => 1,
+                _ => k,
+            },
+            _ => k,
+        };
+        shapes.push((shape, k));
+        let f = id("F");
+        let vals: Vec<Tok> = (0..nvals).map(|i| id(PARAM_NAMES[i])).collect();
+        let mut t = vec![Tok::Ws, id(&format!("H{}", h + 1)), Tok::LParen, f.clone()];
+        for v in &vals {
+            t.push(Tok::Comma);
+            t.push(Tok::Ws);
+            t.push(v.clone());
+        }
+        t.push(Tok::RParen);
+        t.push(Tok::Ws);
+        let mut body: Vec<Tok> = Vec::new();
+        match shape {
+            0 => {
+                body.push(f.clone());
+                if rng.chance(1, 4) {
+                    body.push(Tok::Ws);
+                }
+                body.push(Tok::LParen);
+                for (i, v) in vals.iter().enumerate() {
+                    if i > 0 {
+                        body.push(Tok::Comma);
+                        body.push(Tok::Ws);
+                    }
+                    body.push(v.clone());
+                }
+                body.push(Tok::RParen);
+            }
+            1 => {
+                let n = 2 + rng.below(2);
+                for i in 0..n {
+                    if i > 0 {
+                        body.push(Tok::Ws);
+                    }
+                    body.push(f.clone());
+                    body.push(Tok::LParen);
+                    body.push(int(1 + i));
+                    body.push(Tok::RParen);
+                }
+            }
+            2 => {
+                body.push(f.clone());
+                body.push(Tok::Ws);
+                body.push(vals[0].clone());
+            }
+            3 => {
+                body.extend([f.clone(), Tok::LParen, f.clone(), Tok::LParen, vals[0].clone(), Tok::RParen, Tok::RParen]);
+            }
+            _ => {
+                body.push(id("H1"));
+                body.push(Tok::LParen);
+                body.push(f.clone());
+                for v in &vals {
+                    body.push(Tok::Comma);
+                    body.push(Tok::Ws);
+                    body.push(v.clone());
+                }
+                body.push(Tok::RParen);
+            }
+        }
+        // decoration: literals and punctuation; now and then an identifier of the replacement list's own
+        match rng.below(6) {
+            0 => {
+                body.insert(0, Tok::LParen);
+                body.push(Tok::RParen);
+            }
+            1 => {
+                body.push(Tok::Ws);
+                body.push(punct("+"));
+                body.push(Tok::Ws);
+                body.push(int(1));
+            }
+            2 => {
+                body.insert(0, Tok::Ws);
+                body.insert(0, id("R"));
+                hist.add("higher-order:replacement-list-with-an-identifier");
+            }
+            3 => {
+                body.push(punct(";"));
+            }
+            _ => {}
+        }
+        t.extend(body);
+        lines.push(Line::Define(t));
+        hist.add(&format!("higher-order:combinator-shape-{}", shape));
+    }
+    // sites
+    let nsites = 1 + rng.below(4) as usize;
+    for _ in 0..nsites {
+        let h = rng.below(nh as u64) as usize;
+        let (shape, k) = shapes[h];
+        let eff = if shape == 4 { shapes[0].0 } else { shape };
+        // a worker of the arity the combinator calls it with
+        let cands: Vec<usize> = (0..nw).filter(|w| arity[*w] == k).collect();
+        let w = if cands.is_empty() || rng.chance(1, 20) {
+            hist.add("higher-order:worker-of-another-arity");
+            rng.below(nw as u64) as usize
+        } else {
+            *rng.pick(&cands)
+        };
+        let mut t = vec![id(&format!("H{}", h + 1))];
+        if rng.chance(1, 6) {
+            t.push(Tok::Ws);
+        }
+        t.push(Tok::LParen);
+        t.push(id(&format!("W{}", w + 1)));
+        let mut val = |rng: &mut Rng, t: &mut Vec<Tok>| match rng.below(4) {
+            0 => t.push(int(rng.below(10))),
+            1 => t.push(id(*rng.pick(PLAIN))),
+            2 => {
+                t.push(id("a"));
+                t.push(Tok::Ws);
+                t.push(punct("*"));
+                t.push(Tok::Ws);
+                t.push(int(2));
+            }
+            _ => {
+                // another invocation whose expansion names no macro: a unary worker on an atom
+                let un: Vec<usize> = (0..nw).filter(|w| arity[*w] == 1).collect();
+                if un.is_empty() {
+                    t.push(id("b"));
+                } else {
+                    t.push(id(&format!("W{}", *rng.pick(&un) + 1)));
+                    t.push(Tok::LParen);
+                    t.push(id("c"));
+                    t.push(Tok::RParen);
+                }
+            }
+        };
+        match eff {
+            1 => {}
+            2 => {
+                t.push(Tok::Comma);
+                t.push(Tok::Ws);
+                t.push(Tok::LParen);
+                for i in 0..k {
+                    if i > 0 {
+                        t.push(Tok::Comma);
+                        t.push(Tok::Ws);
+                    }
+                    val(rng, &mut t);
+                }
+                t.push(Tok::RParen);
+            }
+            3 => {
+                t.push(Tok::Comma);
+                t.push(Tok::Ws);
+                val(rng, &mut t);
+            }
+            _ => {
+                for _ in 0..k {
+                    t.push(Tok::Comma);
+                    t.push(Tok::Ws);
+                    val(rng, &mut t);
+                }
+            }
+        }
+        t.push(Tok::RParen);
+        if rng.chance(1, 3) {
+            t.push(Tok::Ws);
+            t.push(punct(";"));
+        }
+        if rng.chance(1, 10) {
+            if let Some(pos) = t.iter().position(|x| *x == Tok::Comma) {
+                let second = t.split_off(pos + 1);
+                lines.push(Line::Text(t));
+                lines.push(Line::Text(second));
+                continue;
+            }
+        }
+        lines.push(Line::Text(t));
+    }
+    hist.add("higher-order:programs");
+    // the definitions in the file, or the combinators passed through the API
+    let mut api = Vec::new();
+    if rng.chance(1, 4) {
+        let mut keep = Vec::new();
+        for l in lines {
+            match &l {
+                Line::Define(t) if matches!(t.get(1), Some(Tok::Id(n)) if n.starts_with('H')) => {
+                    let end = t.iter().position(|x| *x == Tok::RParen).unwrap_or(1);
+                    api.push((t[1..=end].to_vec(), t.iter().skip(end + 2).cloned().collect()));
+                }
+                _ => keep.push(l),
+            }
+        }
+        lines = keep;
+        hist.add("higher-order:combinators-in-the-api-list");
+    }
+    Program { api, files: vec![File { name: "main".into(), real: "main".into(), lines }], strict: true }
 }
 
 // ------------------------------------------------------------------------------------------------
@@ -1834,7 +2113,11 @@ fn oracle_of(p: &Program, real: &Real, hist: &mut Hist) -> String {
             if std::env::var("C12_WHY").is_ok() && best.is_none() {
                 eprintln!("UNCLASSIFIED {} {}", if na { "not-applicable" } else { "unexplained" }, p.encode());
             }
-            if na {
+            if p.strict {
+                // the higher-order family: RSSL equals C on these programs; a difference fails under a key of its own
+                hist.add(&format!("higher-order:differs-from-C({})", class));
+                format!("FAIL:higher-order-differs-from-C ({}) expected {}", class, exp_s)
+            } else if na {
                 hist.add("oracle-not-applicable:outside-the-subset-once-a-known-deviation-is-taken");
                 "ok".to_string()
             } else {
@@ -2321,6 +2604,15 @@ pub fn run(args: &Args, out: &mut Out) {
             }
             all.push(p);
         }
+    }
+    // the higher-order family (judged strictly)
+    for _ in 0..(n / 5).max(50) {
+        let p = generate_higher_order(&mut rng, &mut hist);
+        if program_faithful(&p).is_ok() && predicted_to_explode(&p) {
+            hist.add("not-run:expansion-explodes-without-persistent-paint");
+            continue;
+        }
+        all.push(p);
     }
     let programs = all.len() as u64;
     run_batch(&all, out, &mut hist);
